@@ -127,6 +127,40 @@ func (in *inliner) site(file string, s ast.Stmt, depth int, sub subst, rets *ret
 			return "", false
 		}
 		return "{\n" + strings.Join(decl, "\n") + "\n" + body + "\nreturn " + strings.Join(names, ", ") + "\n}", true
+	case *ast.LabeledStmt:
+		// L: if cond { body; goto L }  ==>  for cond { body }   (the only goto to L, no other branch statement in
+		// the body that the new loop could capture)
+		ifs, ok := st.Stmt.(*ast.IfStmt)
+		if !ok || ifs.Init != nil || ifs.Else != nil || len(ifs.Body.List) == 0 || in.gotos[st.Label.Name] != 1 || depth != 0 {
+			return "", false
+		}
+		last, ok := ifs.Body.List[len(ifs.Body.List)-1].(*ast.BranchStmt)
+		if !ok || last.Tok != token.GOTO || last.Label == nil || last.Label.Name != st.Label.Name {
+			return "", false
+		}
+		clean := true
+		for _, b := range ifs.Body.List[:len(ifs.Body.List)-1] {
+			ast.Inspect(b, func(m ast.Node) bool {
+				switch m.(type) {
+				case *ast.BranchStmt, *ast.LabeledStmt:
+					clean = false
+				case *ast.FuncLit:
+					return false
+				}
+				return clean
+			})
+		}
+		if !clean {
+			return "", false
+		}
+		var b strings.Builder
+		b.WriteString("for " + in.expand(file, ifs.Cond, depth, sub) + " {\n")
+		for _, bs := range ifs.Body.List[:len(ifs.Body.List)-1] {
+			b.WriteString(in.expandR(file, bs, depth, sub, rets) + "\n")
+		}
+		b.WriteString("}")
+		in.count++
+		return b.String(), true
 	case *ast.SendStmt:
 		// ch <- h(args)  ==>  { var t T; <body, result in t>; ch <- t }   (ch a plain operand: nothing to re-order)
 		call, ok := ast.Unparen(st.Value).(*ast.CallExpr)
